@@ -20,6 +20,22 @@ CHECKS = {
    technique="explicit-state exploration by re-execution + exhaustive poll family (kind x offset/timestamp x count) in every reached state, slice-of-list oracle",
    text="In every state reached by every send/flush/save/restart history up to the depth, the complete family of polls (offset 0..cur+2, first, last, next for four stored positions, every stored timestamp and its neighbours; counts 1,2,3,cur+2) is issued and compared field by field with the slice of the list model; vacuity counters show buffer-only, disk-only, disk+buffer, multi-segment and reloaded states were visited.",
    note=PLOG_NOTE),
+ "C14": dict(cat="model_checking", engine="E-seq/partition-log", design="§5 C14",
+   technique="explicit-state exploration by re-execution with an owned clock: all histories of sends, segment fills, clock jumps, real maintenance passes, expiry updates (journalled over TCP) and restarts up to a depth; may-be-deleted set oracle",
+   text="Every history up to the depth is executed with the clock owned by the harness; each maintenance pass is one call of the real MaintainMessagesExecutor. The oracle keeps the set of messages a pass was ever entitled to delete (closed segment, newest message older than the expiry at the time of the pass) and requires at every step that everything else is still served unchanged, that the current offset never moves back, that numbering continues (also across restarts) and that polls below the earliest retained offset start at it.",
+   note=PLOG_NOTE),
+ "C15": dict(cat="model_checking", engine="E-seq/partition-log", design="§5 C15",
+   technique="explicit-state exploration by re-execution: size limits x delete-oldest x histories of sends to two partitions, maintenance passes, limit updates (valid and too small, over TCP) and restarts; accept/refuse table oracle",
+   text="For every limit in {1,2,3 segments, unlimited} x delete_oldest_segments x every history up to the depth: a send must be refused with TopicFull exactly when the reported topic size is at or above the limit and deletion is disabled (and then change nothing), otherwise accepted; whatever a pass removes must be the oldest closed segment of a partition; a limit below one segment must be rejected by update_topic.",
+   note=PLOG_NOTE),
+ "C16": dict(cat="model_checking", engine="E-seq/partition-log", design="§5 C16",
+   technique="explicit-state exploration by re-execution: data-plane histories (sends to two partitions, flush, save, purge, dedup batches, retention, restart); ground truth from full polls and log-file sizes",
+   text="After every step of every history up to the depth the partition/topic/stream message counts, sizes and segment counts (and get_stats in every canonical state) are compared with ground truth: number of messages returned by full polls, number of .log files, and - at fully flushed points - the byte size of the log files; figures before a clean restart must equal figures after it. Catalogue-level deletions (topics, streams, partitions) are covered by the catalogue explorer, not here.",
+   note=PLOG_NOTE),
+ "C18": dict(cat="model_checking", engine="E-seq/partition-log", design="§5 C18",
+   technique="explicit-state exploration by re-execution: all id-repetition patterns over 3 ids (batch length <= 2 quick / <= 3 thorough) in sequences of 3 batches with flush/restart in between; set-of-ids + first-occurrence list model",
+   text="Every sequence of three operations over {every batch shape over ids {1,2,3}, flush, restart} is executed under dedup on (thresholds 1, 2, 1000; cache on/off) and off; stored ids must be pairwise distinct, the first occurrence (identified by its unique payload) must be the one kept, every distinct id must be stored, offsets stay consecutive; with dedup off everything is stored.",
+   note=PLOG_NOTE + " moka's TTL clock is not owned: id expiry by time-to-live is out of scope (TTL far above run time)."),
  "C03": dict(cat="model_checking", engine="E-seq/partition-log", design="§5 C03",
    technique="explicit-state exploration by re-execution with clean restarts at every position; differential oracle (observation before shutdown = after init) + list model on continued traffic",
    text="Graceful restarts (with and, under no-wait confirmation, without draining background tasks - both are behaviours of the real shutdown path) are placed at every position of every history up to the depth; full content, current offset and a stored consumer offset must be identical before shutdown and after init, and traffic after the restart must continue the numbering.",
